@@ -212,6 +212,8 @@ func c11(w *core.World, r *core.Report) {
 	}
 
 	// ---- KEY-VALUE-VERBATIM
+	r.Rule("ELEM-APPEND-OWNED", 10, "(shared with C13) a path is extended on its own elements only: wherever the result of append(<Elem of path P>, ...) is stored into the Elem field of a path (assignment or composite literal), P is that very path (np.Elem = append(np.Elem, ...) on the clone the function made). Appending to another path's elements shares its backing array when it has spare capacity: the leafs of one container then all get the path of the leaf expanded last.")
+	ruleElemAppendOwned(w, r, "ELEM-APPEND-OWNED")
 	r.Rule("KEY-VALUE-VERBATIM", 1, "utils.StripPathElemPrefixPath is applied to the paths of device notifications (ConvertNotificationTypedValues): it may drop the module prefix of element and key NAMES, but the key VALUES are instance data and must be stored as they are: no value written back into PathElem.Key is cut out of / re-joined from the old value. Cutting at ':' turns 2001:db8::1/64 and 2002:db8::1/64 into the same key (two list entries collide in the running store).")
 	if f := w.Func("pkg/utils", "", "StripPathElemPrefixPath"); f != nil {
 		n := 0
